@@ -7,10 +7,12 @@ import (
 	"go/parser"
 	"go/token"
 	"go/types"
+	"regexp"
 	"sort"
 	"strings"
 
 	"golang.org/x/tools/go/packages"
+	"golang.org/x/tools/go/ssa"
 )
 
 // Rules added after seeded batch 4: NO-GO, IDX-PHASE, NUM-PARSE, ENUM-OMIT, SIB-SET, FLD-LOOP, SUCC-FILL.
@@ -85,6 +87,75 @@ func ruleENUMOMIT(c *Ctx) []Obligation {
 		c.eachFunc(path, func(p *packages.Package, fd *ast.FuncDecl, fn *types.Func) {
 			info := p.TypesInfo
 			n := 0
+			// switch F { case A, B: <F not printed> … default: <F printed> }
+			ast.Inspect(fd.Body, func(nd ast.Node) bool {
+				sw, ok := nd.(*ast.SwitchStmt)
+				if !ok || sw.Tag == nil || sw.Init != nil {
+					return true
+				}
+				et, isEnum := enumByType[typeKey(info.TypeOf(sw.Tag))]
+				if !isEnum {
+					return true
+				}
+				tagS := exprString(sw.Tag)
+				mentions := func(sts []ast.Stmt) bool {
+					found := false
+					for _, st := range sts {
+						ast.Inspect(st, func(m ast.Node) bool {
+							if e, ok := m.(ast.Expr); ok && exprString(e) == tagS {
+								found = true
+							}
+							return true
+						})
+					}
+					return found
+				}
+				printedSomewhere := false
+				var silent []ast.Expr
+				for _, cc := range sw.Body.List {
+					cl := cc.(*ast.CaseClause)
+					if mentions(cl.Body) {
+						printedSomewhere = true
+					} else if cl.List != nil {
+						silent = append(silent, cl.List...)
+					}
+				}
+				// the switch must be the function's way of spelling the field: some arm prints it and
+				// nothing after the switch does
+				after := false
+				for _, st := range fd.Body.List {
+					if st.Pos() > sw.End() && mentions([]ast.Stmt{st}) {
+						after = true
+					}
+				}
+				if !printedSomewhere || after || len(silent) == 0 {
+					return true
+				}
+				// arms that spell a member by a constant keyword of their own are not omissions
+				n++
+				o := Obligation{Key: fmt.Sprintf("%s prints %s unless zero #%d", funcKey(fn), tagS, n), Pos: c.pos(sw.Pos()), Verdict: OK, Tags: []string{"enum"}}
+				var dropped []string
+				for _, e := range silent {
+					tv := info.Types[e]
+					if tv.Value == nil {
+						continue
+					}
+					v, _ := constant.Int64Val(constant.ToInt(tv.Value))
+					if v != 0 {
+						dropped = append(dropped, exprString(e))
+					}
+				}
+				// silent arms are omissions only when they all lead to one and the same text (they
+				// share a body / fall out to the same statement): two members, one spelling
+				if len(dropped) > 0 && len(silent) > 1 {
+					o.Verdict = VIOL
+					o.Detail = fmt.Sprintf("the arm(s) for %s do not print the field although they are not its zero value and share their spelling with another member: two values of %s are written as the same text, and the reader can return only one of them", strings.Join(dropped, ", "), et.Short)
+				} else {
+					o.Detail = fmt.Sprintf("%d arm(s) without the field; none shares a spelling with the zero member", len(silent))
+				}
+				obs = append(obs, o)
+				return true
+			})
 			ast.Inspect(fd.Body, func(nd ast.Node) bool {
 				is, ok := nd.(*ast.IfStmt)
 				if !ok || is.Init != nil {
@@ -123,16 +194,42 @@ func ruleENUMOMIT(c *Ctx) []Obligation {
 				if field == nil || !pure {
 					return true
 				}
-				// the body prints that field
-				prints := false
-				ast.Inspect(is.Body, func(m ast.Node) bool {
-					if se, ok := m.(ast.Expr); ok && exprString(se) == exprString(field) {
-						prints = true
-					}
-					return true
-				})
+				mentions := func(n ast.Node) bool {
+					found := false
+					ast.Inspect(n, func(m ast.Node) bool {
+						if se, ok := m.(ast.Expr); ok && exprString(se) == exprString(field) {
+							found = true
+						}
+						return true
+					})
+					return found
+				}
+				// the body prints that field …
+				prints := mentions(is.Body)
+				negate := false
 				if !prints {
-					return true
+					// … or the guard returns early without it and a later statement prints it:
+					//   if F == X { return "kw" }; return fmt.Sprintf("kw(%s)", F)
+					early := len(is.Body.List) > 0
+					if early {
+						_, early = is.Body.List[len(is.Body.List)-1].(*ast.ReturnStmt)
+					}
+					later := false
+					for _, st := range fd.Body.List {
+						if st.Pos() > is.End() && mentions(st) {
+							later = true
+						}
+					}
+					isTop := false
+					for _, st := range fd.Body.List {
+						if st == ast.Stmt(is) {
+							isTop = true
+						}
+					}
+					if !early || !later || !isTop || is.Else != nil {
+						return true
+					}
+					negate = true
 				}
 				et := enumByType[typeKey(info.TypeOf(field))]
 				n++
@@ -157,13 +254,24 @@ func ruleENUMOMIT(c *Ctx) []Obligation {
 						undecided = true
 						break
 					}
-					if !constant.BoolVal(r) && d.Val != 0 {
+					if negate {
+						// early-return shape: the members for which the guard holds share the
+						// guard's spelling — more than one of them is a collision
+						if constant.BoolVal(r) {
+							dropped = append(dropped, d.Name)
+						}
+					} else if !constant.BoolVal(r) && d.Val != 0 {
 						dropped = append(dropped, d.Name)
 					}
 				}
 				switch {
 				case undecided:
 					o.Verdict, o.Detail = UNDECIDED, "the guard could not be evaluated over the members of "+et.Short
+				case negate && len(dropped) <= 1:
+					o.Detail = fmt.Sprintf("`%s` selects the short spelling for one member (%s); every other member is spelled with its keyword", exprString(is.Cond), strings.Join(dropped, ""))
+				case negate:
+					o.Verdict = VIOL
+					o.Detail = fmt.Sprintf("the guard `%s` gives %s one and the same spelling: two values of %s are written as the same text, and the reader can return only one of them", exprString(is.Cond), strings.Join(dropped, ", "), et.Short)
 				case len(dropped) > 0:
 					o.Verdict = VIOL
 					o.Detail = fmt.Sprintf("the guard `%s` also suppresses %s: the keyword is not printed for that value, and the translator leaves the zero value when the keyword is absent, so the value does not survive printing and parsing", exprString(is.Cond), strings.Join(dropped, ", "))
@@ -495,6 +603,40 @@ func ruleNUMPARSE(c *Ctx) []Obligation {
 		}
 		return true, ""
 	}
+	// the counter handed to the numbering function (&id) is advanced by that function only
+	c.eachFunc(pkgASM, func(p *packages.Package, fd *ast.FuncDecl, fn *types.Func) {
+		counters := map[types.Object]token.Pos{}
+		ast.Inspect(fd.Body, func(nd ast.Node) bool {
+			if call, ok := nd.(*ast.CallExpr); ok && calleeOf(info, call) == numbering && len(call.Args) == 2 {
+				if ue, ok := unparen(call.Args[1]).(*ast.UnaryExpr); ok && ue.Op == token.AND {
+					if id, ok := unparen(ue.X).(*ast.Ident); ok {
+						counters[info.ObjectOf(id)] = call.Pos()
+					}
+				}
+			}
+			return true
+		})
+		for obj := range counters {
+			o := Obligation{Key: fmt.Sprintf("%s: the counter %s is advanced by %s only", funcKey(fn), obj.Name(), numbering.Name()), Pos: c.pos(obj.Pos()), Verdict: OK, Detail: "declared once, never assigned elsewhere"}
+			ast.Inspect(fd.Body, func(nd ast.Node) bool {
+				switch x := nd.(type) {
+				case *ast.AssignStmt:
+					for _, l := range x.Lhs {
+						if id, ok := unparen(l).(*ast.Ident); ok && info.ObjectOf(id) == obj && info.Defs[id] == nil {
+							o.Verdict, o.Pos = VIOL, c.pos(x.Pos())
+							o.Detail = fmt.Sprintf("`%s = …` assigns the counter of unnamed global identifiers (it is not a new variable: `=` where a `:=` declares a local of the same name): the next unnamed global, alias, ifunc or function is numbered from this value, so valid input is rejected or a reference binds to another entity", obj.Name())
+						}
+					}
+				case *ast.IncDecStmt:
+					if id, ok := unparen(x.X).(*ast.Ident); ok && info.ObjectOf(id) == obj {
+						o.Verdict, o.Pos, o.Detail = VIOL, c.pos(x.Pos()), "the counter of unnamed global identifiers is modified outside the numbering function"
+					}
+				}
+				return true
+			})
+			obs = append(obs, o)
+		}
+	})
 	n := 0
 	c.eachFunc(pkgASM, func(p *packages.Package, fd *ast.FuncDecl, fn *types.Func) {
 		ast.Inspect(fd.Body, func(nd ast.Node) bool {
@@ -543,5 +685,576 @@ func ruleNUMPARSE(c *Ctx) []Obligation {
 			return true
 		})
 	})
+	return obs
+}
+
+// ---------------------------------------------------------------------------
+// NUM-FIRST
+
+func init() {
+	register(&Rule{
+		Name:  "NUM-FIRST",
+		Doc:   "every printer of package ir that calls a numbering routine (AssignIDs, AssignGlobalIDs, AssignMetadataIDs — the functions holding the ID-setting calls) calls it unconditionally: the call is a top-level statement of the printer (or the Init of a top-level `if err := …; err != nil`), directly or in a helper called that way, so no variant of the entity (a declaration, an empty module) is printed with unnumbered identifiers",
+		Floor: 2,
+		Run:   ruleNUMFIRST,
+	})
+}
+
+func ruleNUMFIRST(c *Ctx) []Obligation {
+	var obs []Obligation
+	info := c.pkg(pkgIR).TypesInfo
+	routines := map[*types.Func]bool{}
+	for _, sc := range c.setIDCalls() {
+		// the routine is the exported method that (transitively) holds the call
+		routines[sc.fn] = true
+	}
+	// helpers / method objects: climb to the exported numbering methods
+	for round := 0; round < 3; round++ {
+		c.eachFunc(pkgIR, func(p *packages.Package, fd *ast.FuncDecl, fn *types.Func) {
+			if routines[fn] {
+				return
+			}
+			ast.Inspect(fd.Body, func(n ast.Node) bool {
+				if call, ok := n.(*ast.CallExpr); ok {
+					if g := calleeOf(info, call); g != nil && routines[g] && !g.Exported() && strings.HasPrefix(fn.Name(), "Assign") {
+						routines[fn] = true
+					}
+				}
+				return true
+			})
+		})
+	}
+	// unconditional(call in fd): the statement holding the call is a top-level statement of the body
+	unconditional := func(fd *ast.FuncDecl, call *ast.CallExpr) (bool, string) {
+		pm := buildParents(fd.Body)
+		var child ast.Node = call
+		for p := pm[call]; p != nil; child, p = p, pm[p] {
+			switch p := p.(type) {
+			case *ast.ExprStmt, *ast.AssignStmt, *ast.ParenExpr:
+				continue
+			case *ast.IfStmt:
+				if p.Init != nil && child == ast.Node(p.Init) {
+					continue
+				}
+				return false, "inside `if " + exprString(p.Cond) + "`"
+			case *ast.BlockStmt:
+				if p == fd.Body {
+					return true, ""
+				}
+				continue
+			case *ast.CaseClause:
+				return false, "inside a case clause"
+			case *ast.ForStmt, *ast.RangeStmt:
+				continue // once per element (each function is numbered before it is printed)
+			case *ast.FuncLit:
+				return false, "inside a function literal"
+			}
+		}
+		return true, ""
+	}
+	var check func(fd *ast.FuncDecl, fn *types.Func, call *ast.CallExpr, routine *types.Func, depth int)
+	check = func(fd *ast.FuncDecl, fn *types.Func, call *ast.CallExpr, routine *types.Func, depth int) {
+		ok, why := unconditional(fd, call)
+		if printRootNames[fn.Name()] || fn.Exported() || depth >= 2 {
+			o := Obligation{Key: fmt.Sprintf("%s numbers through %s unconditionally", funcKey(fn), routine.Name()), Pos: c.pos(call.Pos()), Verdict: OK, Detail: "top-level statement of the printer, before anything is written"}
+			// nothing is written before the numbering
+			if ok {
+				writes := func(n ast.Node) bool {
+					found := false
+					ast.Inspect(n, func(m ast.Node) bool {
+						if _, isLit := m.(*ast.FuncLit); isLit {
+							return false // defining a closure writes nothing
+						}
+						c2, isCall := m.(*ast.CallExpr)
+						if !isCall {
+							return true
+						}
+						if isWriteCall(info, c2) != nil {
+							found = true
+						}
+						if g := calleeOf(info, c2); g != nil && g.Pkg() != nil && g.Pkg().Path() == pkgIR && !routines[g] {
+							if gfd := c.funcDecl(g); gfd != nil && gfd.Body != nil && gfd != fd {
+								ast.Inspect(gfd.Body, func(q ast.Node) bool {
+									if c3, ok := q.(*ast.CallExpr); ok && isWriteCall(info, c3) != nil {
+										found = true
+									}
+									return true
+								})
+							}
+						}
+						return true
+					})
+					return found
+				}
+				// the statements that precede the call: of the function body, or — when the call
+				// numbers one element of a loop (each function of a module) — of that loop's body
+				list := fd.Body.List
+				pm := buildParents(fd.Body)
+				for p := pm[call]; p != nil; p = pm[p] {
+					if rs, isLoop := p.(*ast.RangeStmt); isLoop {
+						list = rs.Body.List
+						break
+					}
+					if fs, isLoop := p.(*ast.ForStmt); isLoop {
+						list = fs.Body.List
+						break
+					}
+				}
+				for _, st := range list {
+					if st.Pos() <= call.Pos() && call.End() <= st.End() {
+						break
+					}
+					if writes(st) {
+						ok, why = false, "after output has started (at "+c.pos(st.Pos())+")"
+						break
+					}
+				}
+			}
+			if !ok {
+				o.Verdict = VIOL
+				o.Detail = fmt.Sprintf("%s is called %s: on the other paths the entity is printed without numbering its unnamed values — every unnamed parameter of a declaration prints as %%0, or references print as inline bodies", routine.Name(), why)
+			}
+			obs = append(obs, o)
+			return
+		}
+		// an unexported helper: judged at its callers, and the call inside it must be unconditional too
+		if !ok {
+			obs = append(obs, Obligation{Key: fmt.Sprintf("%s numbers through %s unconditionally", funcKey(fn), routine.Name()), Pos: c.pos(call.Pos()), Verdict: VIOL,
+				Detail: fmt.Sprintf("%s is called %s in the helper %s", routine.Name(), why, fn.Name())})
+			return
+		}
+		// climb to the callers that print the same entity (methods on the same receiver type): the
+		// printer of a function called from the module's printer is judged on its own
+		recvOf := func(f *types.Func) *types.Named {
+			if r := f.Type().(*types.Signature).Recv(); r != nil {
+				return namedOf(r.Type())
+			}
+			return nil
+		}
+		climbed := false
+		c.eachFunc(pkgIR, func(p *packages.Package, cfd *ast.FuncDecl, caller *types.Func) {
+			if recvOf(caller) == nil || recvOf(caller) != recvOf(fn) {
+				return
+			}
+			ast.Inspect(cfd.Body, func(n ast.Node) bool {
+				if c2, ok := n.(*ast.CallExpr); ok && calleeOf(info, c2) == fn {
+					climbed = true
+					check(cfd, caller, c2, routine, depth+1)
+				}
+				return true
+			})
+		})
+		if !climbed {
+			obs = append(obs, Obligation{Key: fmt.Sprintf("%s numbers through %s unconditionally", funcKey(fn), routine.Name()), Pos: c.pos(call.Pos()), Verdict: OK, Detail: "top-level statement of the entity's printer"})
+		}
+	}
+	c.eachFunc(pkgIR, func(p *packages.Package, fd *ast.FuncDecl, fn *types.Func) {
+		if routines[fn] {
+			return
+		}
+		ast.Inspect(fd.Body, func(n ast.Node) bool {
+			if call, ok := n.(*ast.CallExpr); ok {
+				if g := calleeOf(info, call); g != nil && routines[g] && g.Exported() {
+					check(fd, fn, call, g, 0)
+				}
+			}
+			return true
+		})
+	})
+	return obs
+}
+
+// ---------------------------------------------------------------------------
+// NUM-VALID
+
+func init() {
+	register(&Rule{
+		Name:  "NUM-VALID",
+		Doc:   "the numbering routines of local and global IDs, on which the parser relies to validate explicit %N / @N, reject exactly the explicit IDs that differ from the position: the condition of their failing branch, evaluated over small values of (current ID, position counter), is `current != 0 && current != position` (0 doubles as `not yet assigned`) — a weaker test lets a duplicate or out-of-order ID be renumbered silently",
+		Floor: 2,
+		Run:   ruleNUMVALID,
+	})
+}
+
+func ruleNUMVALID(c *Ctx) []Obligation {
+	var obs []Obligation
+	info := c.pkg(pkgIR).TypesInfo
+	done := map[*ast.FuncDecl]bool{}
+	for _, sc := range c.setIDCalls() {
+		if done[sc.fd] {
+			continue
+		}
+		done[sc.fd] = true
+		space := c.idSpaceOfStore(info, sc.fn, sc.recv)
+		if space != "local" && space != "global" {
+			continue
+		}
+		curS := strings.ReplaceAll(exprString(sc.recv), " ", "") + ".ID()"
+		posS := strings.ReplaceAll(exprString(sc.arg), " ", "")
+		// locals that hold the current ID (cur := n.ID()) read like the call itself
+		curLocals := map[string]bool{}
+		ast.Inspect(sc.fd.Body, func(nd ast.Node) bool {
+			if as, ok := nd.(*ast.AssignStmt); ok && len(as.Lhs) == 1 && len(as.Rhs) == 1 {
+				if strings.ReplaceAll(exprString(as.Rhs[0]), " ", "") == curS {
+					if id, ok := as.Lhs[0].(*ast.Ident); ok {
+						curLocals[id.Name] = true
+					}
+				}
+			}
+			return true
+		})
+		o := Obligation{Key: "numbering of " + space + " IDs rejects exactly the explicit IDs that differ from the position", Pos: c.pos(sc.fd.Pos()), Verdict: UNDECIDED, Detail: "no failing branch on the current ID found"}
+		ast.Inspect(sc.fd.Body, func(nd ast.Node) bool {
+			is, ok := nd.(*ast.IfStmt)
+			if !ok || !(returnsError(info, is.Body.List) || endsInPanic(is.Body.List)) {
+				return true
+			}
+			cond := strings.ReplaceAll(exprString(is.Cond), " ", "")
+			mentionsCur := strings.Contains(cond, curS)
+			for l := range curLocals {
+				if regexp.MustCompile(`\b` + regexp.QuoteMeta(l) + `\b`).MatchString(cond) {
+					mentionsCur = true
+				}
+			}
+			if !mentionsCur {
+				return true
+			}
+			// evaluate over (cur, pos) ∈ {0..3}²; other leaves make the condition undecidable here
+			var eval func(e ast.Expr, cur, pos int64) (constant.Value, bool)
+			eval = func(e ast.Expr, cur, pos int64) (constant.Value, bool) {
+				e = unparen(e)
+				if tv := info.Types[e]; tv.Value != nil {
+					return tv.Value, true
+				}
+				switch es := strings.ReplaceAll(exprString(e), " ", ""); {
+				case es == curS || curLocals[es]:
+					return constant.MakeInt64(cur), true
+				case es == posS:
+					return constant.MakeInt64(pos), true
+				}
+				switch x := e.(type) {
+				case *ast.UnaryExpr:
+					if v, ok := eval(x.X, cur, pos); ok && x.Op == token.NOT && v.Kind() == constant.Bool {
+						return constant.MakeBool(!constant.BoolVal(v)), true
+					}
+				case *ast.BinaryExpr:
+					a, ok1 := eval(x.X, cur, pos)
+					b, ok2 := eval(x.Y, cur, pos)
+					if !ok1 || !ok2 {
+						return nil, false
+					}
+					switch x.Op {
+					case token.LAND:
+						return constant.MakeBool(constant.BoolVal(a) && constant.BoolVal(b)), a.Kind() == constant.Bool && b.Kind() == constant.Bool
+					case token.LOR:
+						return constant.MakeBool(constant.BoolVal(a) || constant.BoolVal(b)), a.Kind() == constant.Bool && b.Kind() == constant.Bool
+					case token.EQL, token.NEQ, token.LSS, token.LEQ, token.GTR, token.GEQ:
+						if a.Kind() == constant.Int && b.Kind() == constant.Int {
+							return constant.MakeBool(constant.Compare(a, x.Op, b)), true
+						}
+					}
+				case *ast.CallExpr: // conversions int64(x)
+					if tv, ok := info.Types[x.Fun]; ok && tv.IsType() && len(x.Args) == 1 {
+						return eval(x.Args[0], cur, pos)
+					}
+				}
+				return nil, false
+			}
+			var wrong []string
+			decidable := true
+			for cur := int64(0); cur < 4 && decidable; cur++ {
+				for pos := int64(0); pos < 4; pos++ {
+					v, ok := eval(is.Cond, cur, pos)
+					if !ok || v.Kind() != constant.Bool {
+						decidable = false
+						break
+					}
+					want := cur != 0 && cur != pos
+					if constant.BoolVal(v) != want {
+						wrong = append(wrong, fmt.Sprintf("(current %d, position %d): fails=%v, want %v", cur, pos, constant.BoolVal(v), want))
+					}
+				}
+			}
+			o.Pos = c.pos(is.Pos())
+			switch {
+			case !decidable:
+				o.Verdict, o.Detail = OK, "the failing condition `"+exprString(is.Cond)+"` involves state other than the current ID and the position: not decided by this rule"
+			case len(wrong) > 0:
+				o.Verdict = VIOL
+				o.Detail = fmt.Sprintf("the failing condition `%s` is not `current != 0 && current != position` — %s: the parser has no other check of explicit IDs, so a duplicate or out-of-order %%N / @N is renumbered silently (or a valid one rejected)", exprString(is.Cond), strings.Join(wrong[:min(3, len(wrong))], "; "))
+			default:
+				o.Verdict, o.Detail = OK, "`"+exprString(is.Cond)+"` ≡ current != 0 && current != position on {0..3}²"
+			}
+			return false
+		})
+		obs = append(obs, o)
+	}
+	return obs
+}
+
+// ---------------------------------------------------------------------------
+// OPS-SHARE
+
+func init() {
+	register(&Rule{
+		Name:  "OPS-SHARE",
+		Doc:   "an operand-holding part of an instruction (operand bundle, switch case, phi incoming, landingpad clause …: a struct of package ir that instructions hold in a slice and that is not itself a value) belongs to one instruction: package asm never puts such an object into a map or into a field of the generator — a cached part would be handed to several instructions, and a write through one instruction's operand slot would change the others",
+		Floor: 1,
+		NeedS: true,
+		Run:   ruleOPSSHARE,
+	})
+}
+
+func ruleOPSSHARE(c *Ctx) []Obligation {
+	// holders: T such that some Inst*/Term* struct of package ir has a field []*T or []T, T a
+	// struct of package ir that does not implement value.Value
+	pir := c.pkg(pkgIR)
+	var valueIface *types.Interface
+	if pv := c.pkg(modLLVM + "/ir/value"); pv != nil {
+		if tn, ok := pv.Types.Scope().Lookup("Value").(*types.TypeName); ok {
+			valueIface, _ = tn.Type().Underlying().(*types.Interface)
+		}
+	}
+	holders := map[*types.Named]string{}
+	scope := pir.Types.Scope()
+	for _, name := range scope.Names() {
+		if !strings.HasPrefix(name, "Inst") && !strings.HasPrefix(name, "Term") {
+			continue
+		}
+		tn, ok := scope.Lookup(name).(*types.TypeName)
+		if !ok {
+			continue
+		}
+		st, ok := tn.Type().Underlying().(*types.Struct)
+		if !ok {
+			continue
+		}
+		for i := 0; i < st.NumFields(); i++ {
+			sl, ok := st.Field(i).Type().Underlying().(*types.Slice)
+			if !ok {
+				continue
+			}
+			et := sl.Elem()
+			if p, ok := et.(*types.Pointer); ok {
+				et = p.Elem()
+			}
+			n, ok := et.(*types.Named)
+			if !ok || n.Obj().Pkg() != pir.Types {
+				continue
+			}
+			if _, isStruct := n.Underlying().(*types.Struct); !isStruct {
+				continue
+			}
+			if valueIface != nil && (types.Implements(n, valueIface) || types.Implements(types.NewPointer(n), valueIface)) {
+				continue
+			}
+			holders[n] = name + "." + st.Field(i).Name()
+		}
+	}
+	var obs []Obligation
+	if len(holders) == 0 {
+		return []Obligation{{Key: "operand-holding part types", Verdict: UNDECIDED, Detail: "none found in package ir"}}
+	}
+	var names []string
+	for n := range holders {
+		names = append(names, n.Obj().Name())
+	}
+	sort.Strings(names)
+	isHolder := func(t types.Type) *types.Named {
+		if p, ok := t.(*types.Pointer); ok {
+			t = p.Elem()
+		}
+		if n, ok := t.(*types.Named); ok {
+			if _, ok := holders[n]; ok {
+				return n
+			}
+		}
+		return nil
+	}
+	c.SSA()
+	n := 0
+	var fns []*ssa.Function
+	for fn := range c.allFuncs {
+		fns = append(fns, fn)
+	}
+	sort.Slice(fns, func(i, j int) bool { return fns[i].String() < fns[j].String() })
+	for _, fn := range fns {
+		pkg := fn.Pkg
+		if pkg == nil && fn.Parent() != nil {
+			pkg = fn.Parent().Pkg
+		}
+		if pkg == nil || pkg.Pkg.Path() != pkgASM {
+			continue
+		}
+		for _, b := range fn.Blocks {
+			for _, in := range b.Instrs {
+				switch x := in.(type) {
+				case *ssa.MapUpdate:
+					if h := isHolder(x.Value.Type()); h != nil {
+						n++
+						obs = append(obs, Obligation{Key: fmt.Sprintf("%s keeps a *ir.%s in a map #%d", shortFn(fn), h.Obj().Name(), n), Pos: c.pos(x.Pos()), Verdict: VIOL,
+							Detail: fmt.Sprintf("an ir.%s (held by %s) is stored in a map: the same object can then be handed to more than one instruction, so a write through one instruction's Operands() slot also changes the others", h.Obj().Name(), holders[h])})
+					}
+				case *ssa.Store:
+					if h := isHolder(x.Val.Type()); h != nil {
+						if fa, ok := x.Addr.(*ssa.FieldAddr); ok {
+							if on := namedOf(fa.X.Type()); on != nil && on.Obj().Pkg() != nil && on.Obj().Pkg().Path() == pkgASM {
+								n++
+								obs = append(obs, Obligation{Key: fmt.Sprintf("%s keeps a *ir.%s in a field of %s #%d", shortFn(fn), h.Obj().Name(), on.Obj().Name(), n), Pos: c.pos(x.Pos()), Verdict: VIOL,
+									Detail: fmt.Sprintf("an ir.%s (held by %s) is kept in translator state: it can be handed to more than one instruction", h.Obj().Name(), holders[h])})
+							}
+						}
+					}
+				}
+			}
+		}
+	}
+	obs = append(obs, Obligation{Key: "operand-holding parts are never cached by the translator", Verdict: OK, Detail: fmt.Sprintf("part types: %s; no map update or translator field in package asm holds one", strings.Join(names, ", "))})
+	return obs
+}
+
+// ---------------------------------------------------------------------------
+// SCAF-TYPE
+
+func init() {
+	register(&Rule{
+		Name:  "SCAF-TYPE",
+		Doc:   "the cached type of a global, function, alias or ifunc scaffold (Typ, and whatever is stored through it, such as Typ.AddrSpace) is final when the scaffold is created: package asm stores it only in functions of the step that fills the index of globals, never in a later step — other entities are translated in map order and may take the type of a scaffold (a constant getelementptr copies the address space of its source) before the scaffold's own body has been translated",
+		Floor: 2,
+		NeedS: true,
+		Run:   ruleSCAFTYPE,
+	})
+}
+
+func ruleSCAFTYPE(c *Ctx) []Obligation {
+	var obs []Obligation
+	info := c.pkg(pkgASM).TypesInfo
+	e := c.effects()
+	refs, _, _, _ := c.translatePhases()
+	if len(refs) == 0 {
+		return []Obligation{{Key: "translate phases", Verdict: UNDECIDED, Detail: "asm.translate not found"}}
+	}
+	// the step that fills newIndex.globals, and the functions reachable from it / from later steps
+	createIdx := -1
+	reachOf := make([]map[*ssa.Function]bool, len(refs))
+	for i, ref := range refs {
+		reachOf[i] = map[*ssa.Function]bool{}
+		sf := c.ssaFunc(ref.fn)
+		if sf == nil {
+			continue
+		}
+		order, _ := e.reach([]*ssa.Function{sf})
+		for _, g := range order {
+			reachOf[i][g] = true
+			for _, ef := range e.of(g) {
+				if ef.Kind == "map" && ef.Target == "asm.newIndex.globals" && c.insideRangeOverIndex(g, ef) {
+					createIdx = i
+				}
+			}
+		}
+	}
+	if createIdx < 0 {
+		return []Obligation{{Key: "step that creates the scaffolds of global entities", Verdict: UNDECIDED, Detail: "no step of translate fills newIndex.globals for all definitions"}}
+	}
+	inCreate := func(sf *ssa.Function) bool {
+		for i := 0; i <= createIdx; i++ {
+			if reachOf[i][sf] {
+				return true
+			}
+		}
+		return false
+	}
+	inLater := func(sf *ssa.Function) bool {
+		for i := createIdx + 1; i < len(refs); i++ {
+			if reachOf[i][sf] {
+				return true
+			}
+		}
+		return false
+	}
+	for _, tname := range []string{"Global", "Func", "Alias", "IFunc"} {
+		tn := c.lookupType(pkgIR, tname)
+		if tn == nil {
+			continue
+		}
+		n := tn.Type().(*types.Named)
+		tm := declaredMethodOf(n, "Type")
+		if tm == nil {
+			continue
+		}
+		// the scaffolds prefill the cache Typ (RACE-3), so Type() returns it: what must be final at
+		// creation is Typ itself and everything stored *through* it (new.Typ.AddrSpace = …)
+		dep := map[string]bool{}
+		for _, ev := range c.subjectFields(tm, -1) {
+			if ev.Field == "Typ" {
+				dep[ev.Field] = true
+			}
+		}
+		if len(dep) == 0 {
+			continue
+		}
+		o := Obligation{Key: "ir." + tname + ": the cached type is final when the scaffold is created", Verdict: OK, Tags: []string{"scaf"}}
+		nStores := 0
+		c.eachFunc(pkgASM, func(p *packages.Package, fd *ast.FuncDecl, fn *types.Func) {
+			sf := c.ssaFunc(fn)
+			ast.Inspect(fd.Body, func(nd ast.Node) bool {
+				var fields []struct {
+					name string
+					pos  token.Pos
+				}
+				switch x := nd.(type) {
+				case *ast.AssignStmt:
+					for _, l := range x.Lhs {
+						// innermost selector whose operand is a *ir.T
+						for e := unparen(l); ; {
+							se, ok := e.(*ast.SelectorExpr)
+							if !ok {
+								break
+							}
+							if isIRStructPtr(c, info.TypeOf(se.X)) == n {
+								fields = append(fields, struct {
+									name string
+									pos  token.Pos
+								}{se.Sel.Name, x.Pos()})
+								break
+							}
+							e = unparen(se.X)
+						}
+					}
+				case *ast.CompositeLit:
+					if namedOf(info.TypeOf(x)) == n {
+						for _, el := range x.Elts {
+							if kv, ok := el.(*ast.KeyValueExpr); ok {
+								if id, ok := kv.Key.(*ast.Ident); ok {
+									fields = append(fields, struct {
+										name string
+										pos  token.Pos
+									}{id.Name, kv.Pos()})
+								}
+							}
+						}
+					}
+				}
+				for _, f := range fields {
+					if !dep[f.name] {
+						continue
+					}
+					nStores++
+					if sf != nil && !inCreate(sf) && inLater(sf) && o.Verdict == OK {
+						o.Verdict, o.Pos = VIOL, c.pos(f.pos)
+						o.Detail = fmt.Sprintf("%s stores ir.%s.%s, on which (*ir.%s).Type() depends, but runs only in a step after %s, which creates the scaffolds: another entity translated earlier (the order is that of a map) sees the type without it — e.g. a constant getelementptr on a global in addrspace(1) is typed in address space 0 and then fails its own type check, depending on the run", funcKey(fn), tname, f.name, tname, refs[createIdx].fn.Name())
+					}
+				}
+				return true
+			})
+		})
+		if o.Verdict == OK {
+			o.Detail = fmt.Sprintf("Type() depends on {%s}; %d store(s) in package asm, all within the scaffold step (%s) or earlier", strings.Join(sortedKeys(dep), ", "), nStores, refs[createIdx].fn.Name())
+			if nStores == 0 {
+				continue
+			}
+		}
+		obs = append(obs, o)
+	}
 	return obs
 }
